@@ -33,6 +33,10 @@ RULE = ("perm: L1 on the real clp / tokenregistry message servers and the real i
         "sent token names another registered denom as ibc_counterparty_denom (sometimes also base_denom; link back in some), decimals of the "
         "two entries from {0,6,10,18,20}, permission masks with / without IBCEXPORT on either side, 4 token pairs incl. rowan, then in a third "
         "of the trials IBCEXPORT is flipped on the sent denom alone by MsgRegister and the transfer repeated (+ n/6 random). "
+        "(i) spellings: MsgRegister / MsgDeregister for a denom "
+        "differing only in letter case from a listed one (cusdc/CUSDC/Cusdc, cdash/cDASH, rowan/Rowan, ibc/<HASH> vs ibc/<hash>, both "
+        "directions; 9 mask combinations + deregister, + n/8 random), judged at the edit by c12.regstored (an accepted register of X changes "
+        "exactly X's entry, a deregister removes exactly X) and followed by the gated messages on both spellings. "
         "Every registry message is rendered from the message as SENT (the handler gets its own copy) and has its own "
         "chk c12.regstored: the registry as stored afterwards (raw KV bytes) equals the edit applied to the registry as stored before. Compared: registry after every edit, pass/refuse of every message (transfer: refused by the "
         "wrapper or reached the ibc-go stub), whether a refused handler wrote to its own cached state. chk: accepted => decision table "
